@@ -249,6 +249,8 @@ def _task(tkey, name, tier):
             paths_total += len(results)
             uns = [r.detail for r in results if r.status == 'unsupported']
             oid = f'M/add-contract/{tkey}/{a}/fwd={fwd}'
+            if not uns and res['npaths'] == 0:
+                uns = ['no feasible path reached the postcondition (vacuous)']
             if uns:
                 obs.append(dict(oid=oid, props=['C06', 'C10'], status='undecided', detail=uns[0], paths=len(results)))
                 obs.append(dict(oid=oid.replace('add-contract', 'add-exceptions'), props=['C19'], status='undecided', detail=uns[0], paths=len(results)))
@@ -293,6 +295,8 @@ def _task(tkey, name, tier):
         rs = E.explore(harness_r, maxpaths=2000, timeout=budget, query_timeout_ms=qt)
         paths_total += len(rs)
         uns = [r.detail for r in rs if r.status == 'unsupported']
+        if not uns and resR['n'] == 0:
+            uns = ['no feasible path reached the postcondition (vacuous)']
         a_ = alpha[li] if li < len(alpha) else str(li)
         obs.append(dict(oid=f'M/remove-contract/{tkey}/{li}', props=['C06', 'C11', 'C19'], status='undecided' if uns else ('discharged' if resR['ok'] else 'violated'),
                         detail=(uns[0] if uns else resR['detail']), paths=resR['n'], model=resR['model']))
@@ -437,6 +441,8 @@ def _task(tkey, name, tier):
     rs = E.explore(harness_final, maxpaths=4000, timeout=budget, query_timeout_ms=qt)
     paths_total += len(rs)
     uns = [r.detail for r in rs if r.status == 'unsupported']
+    if not uns and resB['n'] == 0:
+        uns = ['no feasible path reached the postcondition (vacuous)']
     for key, prop, det, mod in (('sound', 'C01', 'detail', 'model'), ('complete', 'C02', 'detail_c', 'model_c')):
         st_ = 'undecided' if (uns or resB[key] is None) else ('discharged' if resB[key] else 'violated')
         obs.append(dict(oid=f'M/final-check-{key}/{tkey}', props=[prop], status=st_, detail=(uns[0] if uns else resB[det]), paths=resB['n'], model=resB[mod],
@@ -466,6 +472,8 @@ def _task(tkey, name, tier):
         rs = explore_add(a, None, alive, rec_de)
         paths_total += len(rs)
         uns = [r.detail for r in rs if r.status == 'unsupported']
+        if not uns and resD['n'] == 0:
+            uns = ['no feasible path reached the postcondition (vacuous)']
         for key, prop, dk, mk_ in (('D', 'C07', 'dD', 'mD'), ('E', 'C12', 'dE', 'mE')):
             st_ = 'undecided' if (uns or resD[key] is None) else ('discharged' if resD[key] else 'violated')
             obs.append(dict(oid=f'M/{"accept-completable" if key == "D" else "reject-uncompletable"}/{tkey}/{a}', props=[prop], status=st_,
@@ -540,6 +548,30 @@ def eligible_basic():
     return [(t, n) for t, n in sorted(type_elements().items()) if t not in full]
 
 
+def canary(args=None):
+    """the engine must REFUTE a deliberately false contract ('add_element never changes a leaf list') and must find an exception path
+    for a deliberately wrong exception clause: guards against an exploration that silently generates no obligations"""
+    cc, X, mods, wrapped = setup_lib()
+    lib = hist.Lib()
+    seen = {'grew': False, 'raised': False, 'paths': 0}
+
+    def harness():
+        e = lib.fresh('pitch')
+        c = e._child_container_tree
+        st = M.mkstate(mods, c)
+        el = lib.child('step')
+        try:
+            c.add_element(el, None, False)
+            if any(l.content._xml_elements.suffix for l in st.leaves):
+                seen['grew'] = True
+        except Exception:
+            seen['raised'] = True
+        seen['paths'] += 1
+        return 0
+    E.explore(harness, maxpaths=200, timeout=60)
+    return seen['grew'] and seen['raised'] and seen['paths'] >= 2
+
+
 def sweep(tier='quick', force=False, only=None):
     cdir = os.path.join(os.environ.get('VERIF_OUT') or VERIF, '.cache')
     os.makedirs(cdir, exist_ok=True)
@@ -558,9 +590,10 @@ def sweep(tier='quick', force=False, only=None):
     res = []
     t0 = time.time()
     with ctx.Pool(processes=min(16, os.cpu_count() or 4), maxtasksperchild=1) as pool:
+        canary_ok = pool.apply(canary, (None,))
         for r in pool.imap_unordered(task, tasks, chunksize=1):
             res.append(r)
-    out = dict(tier=tier, key=key, wall_s=round(time.time() - t0, 1), types=sorted(res, key=lambda r: r['tkey']))
+    out = dict(tier=tier, key=key, wall_s=round(time.time() - t0, 1), canary_ok=canary_ok, types=sorted(res, key=lambda r: r['tkey']))
     if only is None:
         tmp = path + f'.{os.getpid()}'
         with open(tmp, 'w') as f:
